@@ -721,6 +721,8 @@ def replay_findings(rep: Report, prop: str, model_ok: bool, accept_all: Dict[str
 
 ACCEPT = {"K_clear": "C13-d", "K_stale": "C13-b", "K_pin": "C13-c"}
 TRUSTED = [
+    "source pins pins/registry.json (19 methods mirrored by the hand model but not translated: Variable domain plumbing, HashedIterable / "
+    "HashedValue identity, let / entity / an, SymbolicExpression / RWXNode registration, WrappedInstance.__eq__/__hash__)",
     "translator/t_registry.py (fail-closed statement-idiom translator: symbol_graph.py, utils.recursive_subclasses, predicate.Symbol.__new__, "
     "entity let-domain, hashed_data.__iter__, symbolic evaluate, singleton -> Gen/Registry.v) and its idiom table Onto/RegistryIdioms.v",
     "hand-written model of symbol_graph.py / recursive_subclasses / Symbol.__new__ / let(T,None)+evaluate (Onto/Registry.v), "
@@ -747,6 +749,10 @@ def proof_steps(rep: Report, prop: str) -> bool:
     core.standard_proof_steps(
         rep, prop, [f"Props/{prop}.vo"],
         regen=[("Gen/Registry.v", lambda: t_registry.translate(str(core.REPO)), core.COQ / "Gen" / "Registry.v")])
+    # methods the hand model mirrors that the translator does not regenerate (variable / domain plumbing, the process-wide
+    # expression tables, wrapper equality): their source is pinned
+    from translator import pins
+    pins.oblige(rep, str(core.REPO), "registry", "Onto/Registry.v (query variables, domain cache, expression tables)")
     ok, log = core.coq_make(["Onto/RegistryRun.vo"])
     rep.oblige("build:Onto/RegistryRun.vo", ok, "" if ok else core.first_error(log))
     if rep.tier == "thorough" and not rep.open_obligations():
